@@ -136,7 +136,9 @@ impl ServiceStateActions for NodeService<'_> {
 
         Ok(ServiceInstallCtx {
             args,
-            autostart: options.auto_restart,
+            // the auto-restart setting is the one recorded for the service at installation, like
+            // every other setting of the regenerated definition
+            autostart: self.service_data.auto_restart,
             contents: None,
             environment: options.env_variables,
             label: label.clone(),
